@@ -804,6 +804,18 @@ impl Sched {
             self.abort_here(st, Verdict::Budget);
         }
         if st.step - st.last_change > st.cfg.livelock {
+            // nobody has changed anything for a long time: a thread that has spent a long run of
+            // its own points inside one try operation meanwhile is not waiting, it is spinning
+            if st.cfg.try_quiet_bound > 0 {
+                let spinner = st.threads.iter().enumerate().find(|(_, t)| {
+                    let k = t.activity.kind;
+                    (k == 1 || k == 7 || k == 9 || k == 11) && t.call_quiet >= 150 && t.state == TState::Runnable
+                });
+                if let Some((tid, t)) = spinner {
+                    let q = t.call_quiet;
+                    self.abort_here(st, Verdict::TryOpSpins(tid, q));
+                }
+            }
             self.abort_here(st, Verdict::Livelock);
         }
         if let Some(s) = st.solo.as_mut() {
